@@ -15,7 +15,7 @@ IMPORTS = "Base Json Discover Migrate CorrC20"
 CASE_TYPE = "case_C20"
 MISMATCHES = "mismatches_C20"
 VIOLATIONS = "violations_C20"
-KNOWN = None
+KNOWN = "known_C20"
 SHARD = 40
 EXHAUSTIVE = {"quick": False, "thorough": True}
 RULE = ("one case = one real project directory written the way signac 1.x did (vendored ConfigObj writes signac.rc with "
@@ -25,7 +25,7 @@ RULE = ("one case = one real project directory written the way signac 1.x did (v
         "workspace_dir {key absent, 'workspace', relative custom, nested custom, nested names ENDING in workspace (data/workspace, x/y/workspace), spellings ./workspace and workspace/, custom colliding with an existing empty / "
         "non-empty 'workspace'}; the workspace directory existing or (0 jobs only) never created; v1 cache and shell-history "
         "files present or not; a pre-existing project document or not; 0, 1, 3 or 5 jobs with documents, files and nested "
-        "files; the collision matrix custom workspace_dir {never created, empty, with jobs} x stray <root>/workspace {empty, with job directories, a file}; HISTORIES: the same directory in several states within one process (nothing -> legacy project placed; nothing -> current; current -> newer; legacy -> upgraded; current -> legacy; projects removed), all four entry points queried in every state.  thorough = the whole product, quick = every small class plus a seeded sample.  Observed: exception class "
+        "files; the collision matrix custom workspace_dir {never created, empty, with jobs} x stray <root>/workspace {empty, with job directories, a file}; HISTORIES: the same directory in several states within one process (nothing -> legacy project placed; nothing -> current; current -> newer; legacy -> upgraded; current -> legacy; projects removed), all four entry points queried in every state; LEFTOVERS: a current-layout project (.signac/config version 2 / 3) that also holds a legacy signac.rc declaring {absent, 0, 1, 2, 3} with or without workspace_dir; RELATIVE QUERIES on every case: the entry points called with relative paths ('p' from above, '..' from a sub-directory, '.', 'scripts', './scripts/..', path=None, '../..' and 'ws/<id>' forms) from the directory above, the project directory, a sub-directory, the workspace and a job directory (os.chdir in the forked child).  thorough = the whole product, quick = every small class plus a seeded sample.  Observed: exception class "
         "and byte snapshot for Project(), get_project(), get_project(search=False), init_project() on the pristine tree; "
         "outcome and tree after apply_migrations, after a second apply_migrations, and ids / state points / documents / "
         "files of the project re-opened with signac.  non-trivial: a legacy project with >= 1 job or a non-default option; "
@@ -85,7 +85,7 @@ def all_inputs():
             continue
         out.append({"layout": "v2", "ver": ver, "ws_exists": ex, "njobs": njobs, "predoc": predoc, "cache": bool(njobs)})
     out.append({"layout": "none", "njobs": 0})
-    out += collision_matrix() + histories()
+    out += collision_matrix() + histories() + leftovers()
     out.append({"layout": "v1", "ver": 1, "name": None, "ws": None, "ws_exists": True, "collide": None,
                 "njobs": 1, "cache": False, "hist": False, "predoc": False})   # no project key: not loadable
     return out
@@ -118,6 +118,17 @@ def collision_matrix():
             for (ex, njobs) in ((False, 0), (True, 0), (True, 3)):
                 for col in ("empty", "full", "file"):
                     out.append(legacy(ver=ver, ws=w, ws_exists=ex, collide=col, njobs=njobs, cache=(njobs == 3)))
+    return out
+
+
+def leftovers():
+    """a project in the CURRENT layout (.signac/config, version 2 or newer) that also holds a LEFTOVER legacy signac.rc
+    (the old configuration restored from a backup / version control after the migration) declaring any version, with
+    or without a workspace_dir key and directory: the project is what .signac/config says it is."""
+    out = []
+    for ver, rcver, rcws, njobs in itertools.product((2, 3), (None, 0, 1, 2, 3), (None, "ws"), (0, 3)):
+        out.append({"layout": "v2", "ver": ver, "ws_exists": True, "njobs": njobs, "predoc": rcver == 1, "cache": bool(njobs),
+                    "rc": {"ver": rcver, "name": "old name" if rcws else "None", "ws": rcws, "ws_dir": rcws is not None and njobs == 0}})
     return out
 
 
@@ -260,6 +271,17 @@ def build(root, d):
         if d.get("cache"):
             with gzip.open(os.path.join(root, ".signac", "statepoint_cache.json.gz"), "wb") as fh:
                 fh.write(json.dumps(sps).encode())
+        if d.get("rc"):
+            rc = d["rc"]
+            c = ConfigObj(os.path.join(root, "signac.rc"))
+            c["project"] = rc["name"]
+            if rc["ws"] is not None:
+                c["workspace_dir"] = rc["ws"]
+            if rc["ver"] is not None:
+                c["schema_version"] = str(rc["ver"])
+            c.write()
+            if rc.get("ws_dir"):
+                os.makedirs(os.path.join(root, rc["ws"]))
     if d.get("predoc"):
         with open(os.path.join(root, "signac_project_document.json"), "w") as fh:
             json.dump({"foo": [1, 2.5], "bar": {"x": None}}, fh)
@@ -342,6 +364,58 @@ def gate_calls(signac, base, root, pristine, before):
     return gate
 
 
+def rel_queries(base, root, d):
+    """(cwd, path or None, kind) - other spellings of the project directory and of places below it, from other
+    working directories.  Every path is relative (or None = os.getcwd())."""
+    below = [os.path.join(root, "scripts")]
+    wsdir = os.path.join(root, d.get("ws") or "workspace") if d["layout"] != "none" else None
+    if wsdir and os.path.isdir(wsdir):
+        below.append(wsdir)
+        jobs = sorted(n for n in os.listdir(wsdir) if os.path.isdir(os.path.join(wsdir, n)))
+        if jobs:
+            below.append(os.path.join(wsdir, jobs[0]))
+    deepest = below[-1]
+    ALL = ["GProject", "(GGet true)", "(GGet false)", "GInit"]
+    qs = [(base, os.path.basename(root), k) for k in ALL]                       # from the directory above
+    if not os.path.isdir(below[0]):
+        return qs
+    qs += [(below[0], "..", k) for k in ALL]                                     # from a sub-directory, through '..'
+    qs += [(root, ".", "(GGet true)"), (root, "scripts", "(GGet true)"), (root, "./scripts/..", "GInit")]
+    qs += [(below[0], ".", "(GGet true)"), (below[0], ".", "(GGet false)")]
+    if deepest != below[0]:
+        up = os.path.relpath(root, deepest)
+        qs += [(deepest, ".", "(GGet true)"), (deepest, None, "(GGet true)"), (deepest, up, "(GGet true)"),
+               (deepest, up, "GProject"), (deepest, os.path.join(up, "scripts"), "(GGet true)"),
+               (root, os.path.relpath(deepest, root), "(GGet true)"), (base, os.path.relpath(deepest, base), "(GGet true)")]
+    return qs
+
+
+def rel_calls(signac, base, root, pristine, before, d):
+    out = []
+    calls = {"GProject": lambda p: signac.Project(p), "(GGet true)": lambda p: signac.get_project(p),
+             "(GGet false)": lambda p: signac.get_project(p, search=False), "GInit": lambda p: signac.init_project(p)}
+    home = os.getcwd()
+    for cwd, path, kind in rel_queries(base, root, d):
+        os.chdir(cwd)
+        real_cwd = os.getcwd()
+        try:
+            res = ("ok", (calls[kind](path) if path is not None else signac.get_project()).path)
+        except Exception as e:
+            res = ("err", exn_name(e), type(e).__name__)
+        os.chdir(home)
+        after = byte_snapshot(base)
+        changed = after != before
+        post = None
+        if changed:
+            post = coq_node(base)
+            shutil.rmtree(base)
+            shutil.copytree(pristine, base, symlinks=True)
+            assert byte_snapshot(base) == before
+        out.append({"cwd": real_cwd, "path": path if path is not None else real_cwd, "none": path is None,
+                    "kind": kind, "res": res, "changed": changed, "post": post})
+    return out
+
+
 def observe(d):
     """everything the implementation does with the project described by d (runs in a forked child)."""
     import signac
@@ -370,6 +444,7 @@ def observe(d):
         before = byte_snapshot(base)
         jobs_before = raw_jobs(os.path.join(root, d.get("ws") or "workspace")) if d["layout"] != "none" else []
         gate = gate_calls(signac, base, root, pristine, before)
+        rel = rel_calls(signac, base, root, pristine, before, d)
         err = io.StringIO()
         with contextlib.redirect_stderr(err):
             try:
@@ -401,7 +476,7 @@ def observe(d):
         return {"base": base, "root": root, "cwd": sd, "tree": tree, "gate": gate, "mig": mig, "mig_post": mig_post,
                 "again": again, "again_changed": again_changed, "jobs_before": jobs_before, "opened": opened,
                 "name_after": name_after, "layout_after": layout_after,
-                "orig": (d.get("name"), d.get("ws")) if d["layout"] == "v1" else None, "hist": hist}
+                "orig": (d.get("name"), d.get("ws")) if d["layout"] == "v1" else None, "hist": hist, "rel": rel}
 
 
 def run_case(desc):
@@ -413,9 +488,10 @@ def run_case(desc):
     glits = [glit(g) for g in o["gate"]]
     hlits = ["(%s, %s)" % (h["tree"], coq_list([glit(g) for g in h["gate"]], "gobs")) for h in o["hist"]]
     opened = o["opened"]
+    rlits = ["(%s, %s, %s)" % (coq_str(r["cwd"]), coq_str(r["path"]), glit(r)) for r in o["rel"]]
     coq = ("{| c20_base := %s; c20_tree := %s; c20_root := %s; c20_cwd := %s; c20_gate := %s; c20_mig := %s; "
            "c20_mig_post := %s; c20_again := %s; c20_again_changed := %s; c20_jobs_before := %s; c20_open_after := %s; "
-           "c20_name_after := %s; c20_hist := %s; c20_orig := %s |}") % (
+           "c20_name_after := %s; c20_hist := %s; c20_orig := %s; c20_rel := %s |}") % (
         coq_str(o["base"]), o["tree"], coq_str(o["root"]), coq_str(o["cwd"]), coq_list(glits, "gobs"),
         coq_res_unit(o["mig"]), o["mig_post"], coq_res_unit(o["again"]), coq_bool(o["again_changed"]),
         coq_jobs(o["jobs_before"]),
@@ -424,19 +500,24 @@ def run_case(desc):
         coq_list(hlits, "(node * list gobs)"),
         coq_opt(None if o["orig"] is None else "(%s, %s)" % (
             coq_opt(None if o["orig"][0] is None else coq_str(o["orig"][0])),
-            coq_opt(None if o["orig"][1] is None else coq_str(o["orig"][1])))))
+            coq_opt(None if o["orig"][1] is None else coq_str(o["orig"][1])))),
+        coq_list(rlits, "(str * str * gobs)"))
     obs = {"gate": [[g["kind"], g["res"][0] if g["res"][0] == "ok" else g["res"][1], g["changed"]] for g in o["gate"]],
            "migrate": list(o["mig"]), "again": list(o["again"]), "again_changed": o["again_changed"],
            "ids_before": [j[0] for j in o["jobs_before"]],
            "opened": opened[0] if opened[0] == "err" else [j[0] for j in opened[1]],
            "opened_exc": opened[1] if opened[0] == "err" else None,
            "name_after": o["name_after"], "root_listing_after": o["layout_after"],
+           "relative": [[os.path.relpath(r["cwd"], o["base"]), None if r["none"] else r["path"], r["kind"],
+                         r["res"][0] if r["res"][0] == "ok" else r["res"][1], r["changed"]] for r in o["rel"]],
            "history": [[[g["kind"], g["res"][0] if g["res"][0] == "ok" else g["res"][1], g["changed"]] for g in h["gate"]]
                        for h in o["hist"]]}
     d = desc
     nontrivial = d["layout"] == "v1" and (d["njobs"] >= 1 or d.get("ws") is not None or d.get("cache") or d.get("hist"))
     kinds = (["history:%d" % len(d["before"])] if d.get("before") else []) + ["%s:ver=%s" % (d["layout"], d.get("ver")),
              "ws=%s%s%s" % (d.get("ws"), "" if d.get("ws_exists", True) else ":missing", ":collide" if d.get("collide") else "")]
+    if d.get("rc"):
+        kinds.append("leftover-rc:ver=%s" % d["rc"]["ver"])
     return Case(coq, desc, obs=obs, nontrivial=bool(nontrivial), key=json.dumps(desc, sort_keys=True), kinds=kinds)
 
 
